@@ -6,6 +6,7 @@ package main
 import (
 	"bytes"
 	"context"
+	"encoding/json"
 	"errors"
 	"fmt"
 	"github.com/TeaEntityLab/fpGo/v2/zzverif/vsched"
@@ -16,6 +17,7 @@ import (
 	"net/url"
 	"sort"
 	"strings"
+	"time"
 
 	fpgo "github.com/TeaEntityLab/fpGo/v2"
 	"github.com/TeaEntityLab/fpGo/v2/network"
@@ -216,6 +218,29 @@ func main() {
 			}
 		}
 	}
+	// path parameters of other kinds: named types with their own String method, booleans, durations
+	kinds := map[string]interface{}{"x": time.March, "y": 1500 * time.Millisecond, "z": shouting("s"), "w": true, "unused": status(2)}
+	for _, ct := range ctors() {
+		for _, tmpl := range templates {
+			for _, sub := range []int{31, 1, 2, 4, 8, 5, 10} {
+				pp := network.PathParam{}
+				for i, k := range keys {
+					if sub&(1<<i) != 0 {
+						pp[k] = kinds[k]
+					}
+				}
+				inputs++
+				oneCase(ct, base, tmpl, pp, nil, "none", &samples)
+			}
+		}
+		// bodies that are the zero value of their type (or empty): the request still carries the serializer's output for them
+		if ct.kind == "json" {
+			for _, body := range []interface{}{0, "", false, 0.0, struct{}{}, payload{}, []int{}, [2]int{}, map[string]int{}, "x", 5} {
+				inputs++
+				bodyCase(ct, base, body)
+			}
+		}
+	}
 	// nested evaluation under each sync.Pool policy of the shim: an interceptor of the outer API evaluates a
 	// JSON call of another API (audit / token refresh) between the outer body's serialization and its
 	// transmission; every request still carries its own serializer output
@@ -245,6 +270,33 @@ func main() {
 	r.Assume = []string{"stub http.RoundTripper instead of sockets (its response body honours the request context, like a real transport's)",
 		"placeholder values contain no braces, so substitution is independent of the PathParam iteration order: a correct implementation gives one URL for every order, and the map-order seam planned in DESIGN §2.1 is not needed for the oracle (it was not built)"}
 	r.Finish()
+}
+
+type shouting string
+
+func (s shouting) String() string { return strings.ToUpper(string(s)) + "!" }
+
+type status int
+
+func (s status) String() string { return []string{"new", "paid", "shipped"}[s] }
+
+func bodyCase(ct ctor, base string, body interface{}) {
+	st := &stub{respBody: `{"A":42}`}
+	api := network.NewSimpleAPIWithSimpleHTTP(base, network.NewSimpleHTTPWithClientAndInterceptors(&http.Client{Transport: st}))
+	var t reply
+	evals++
+	if p := lib.Catch(func() { ct.mk(api, "x")(nil, body, &t).Eval() }); p != "" {
+		bad("panic|eval|body-shape", "%s with body %#v: %s", ct.name, body, p)
+		return
+	}
+	want, _ := json.Marshal(body)
+	if len(st.reqs) != 1 || st.reqs[0].body != string(want) {
+		got := "no request"
+		if len(st.reqs) > 0 {
+			got = fmt.Sprintf("%q", st.reqs[0].body)
+		}
+		bad("body|zero-valued", "%s with body %#v (%T): the request carried %s, the serializer's output is %q", ct.name, body, body, got, want)
+	}
 }
 
 func retainCase(ct ctor, base string) {
